@@ -10,7 +10,7 @@
    This file holds only statements; each proof is one [exact] of a lemma from Proofs/C10*P.v. *)
 From BP Require Import Base.Prelude Model.Types Model.Varint Model.Object Model.Eq Model.Encode Model.Len Model.Decode.
 From BP Require Import Model.C10Stream Spec.Varint.
-From BP Require Import Proofs.C10FrameP Proofs.C10StreamP.
+From BP Require Import Proofs.C10FrameP Proofs.C10StreamP Proofs.C10TotalP.
 
 (* ---------------------------------------------------------------------------------------------
    one frame
@@ -166,6 +166,22 @@ Theorem C10_truncate_count : forall scW scR ms1 m ms2 cs pre_s F stream k,
   exists e, loads scR cs (firstn k stream) = (fst (parse_each scW scR (firstn (length ms1) cs) ms1), Err e).
 Proof. exact stream_truncate_count. Qed.
 Print Assumptions C10_truncate_count.
+
+(* ---------------------------------------------------------------------------------------------
+   every [Err] above is a Python exception: the model's fuel marker EFuel never comes out of
+   load(stream, SIZE_DELIMITED), of parse, or of a run of loads
+   --------------------------------------------------------------------------------------------- *)
+Theorem C10_load_raises : forall sc c s e, load_delimited sc c s = Err e -> e <> EFuel.
+Proof. exact load_delimited_raises. Qed.
+Print Assumptions C10_load_raises.
+
+Theorem C10_parse_raises : forall sc c bs e, parse sc c bs = Err e -> e <> EFuel.
+Proof. exact parse_raises. Qed.
+Print Assumptions C10_parse_raises.
+
+Theorem C10_loads_raises : forall sc cs s l e, loads sc cs s = (l, Err e) -> e <> EFuel.
+Proof. exact loads_raises. Qed.
+Print Assumptions C10_loads_raises.
 
 (* ---------------------------------------------------------------------------------------------
    non-vacuity: class A {x: int32 = 1; s: optional string = 2}, the field-less class E, the older
